@@ -507,6 +507,16 @@ class C16(Prop):
                 bad = [l for l in rows if not ref_row_valid(l, i["hdr"])]
                 if sorted(rej_rows) != sorted(bad):
                     return "rejected rows %r, rows failing a validation %r" % (rej_rows, bad)
+            elif (len(rows) >= 2 and len(rows) == len(i["lines"])
+                  and all(c["offset"] is not None for fmt in (i["hdr"], i["body"] or [], i["footer"] or []) for c in fmt)):
+                # the first line is read with the header layout, the last one with the footer layout, the others with the body
+                # layout; an omitted body layout is the header layout, an omitted footer layout is the (resolved) body layout
+                body = i["body"] or i["hdr"]
+                footer = i["footer"] or body
+                lay = [i["hdr"]] + [body] * (len(rows) - 2) + [footer]
+                bad = [l for l, fmt in zip(rows, lay) if not ref_row_valid(l, fmt)]
+                if sorted(rej_rows) != sorted(bad):
+                    return "rejected rows %r, rows failing a validation of their layout (header / body / footer) %r" % (rej_rows, bad)
             if len(acc) + len(rej) != len(rows):
                 return "%d accepted + %d rejected rows for %d non-empty lines" % (len(acc), len(rej), len(rows))
             if i["orig"] and all(isinstance(a, dict) and i["orig"] in a for a in acc):
